@@ -12,7 +12,7 @@ import random
 from lib import gram, refparser, treeconv
 
 ID = 'C06'
-TECHNIQUE = 'online reference-model monitor: real parser vs reference parser R1 on exhaustive token strings (len <= 4/5) and grammar-derived sentences + mutants'
+TECHNIQUE = 'online reference-model monitor: real parser vs reference parser R1 on exhaustive token strings (len <= 4/5) and grammar-derived sentences + mutants; coverage-guided differential fuzzing of texts (atheris) against reference lexer + R1'
 RULE = ('token strings: (a) every string over the %d-token alphabet up to length 4 (quick) / plus length 5 over the '
         '%d class representatives (thorough), enumerated, hence distinct; (b) random derivations of the published '
         'grammar (depth 2-7, <= 70 tokens) and one-token insert/delete/replace mutants. A case is non-trivial when at '
